@@ -292,7 +292,7 @@ func c02(r *Run) {
 		if !fromExposed {
 			continue
 		}
-		okWho := w.FnName(fn) == "(*UnsafeLinkBuffer).Release"
+		_, okWho := w.OwnerOf(fn, func(n string) bool { return n == "(*UnsafeLinkBuffer).Release" })
 		r.ob("C02.R3:"+fn.Name()+":free("+fieldTail(src)+")", "a pool block that backs read results (caches, cachePeek) is freed only by Release: until then a caller may still be reading it", fn, site, okWho, "free("+src+") in "+w.FnName(fn), false)
 	}
 
